@@ -157,6 +157,42 @@ func (e *EnvReader) Src() io.Reader {
 
 type envReaderLen struct{ *EnvReader }
 
+// A source of this kind usually has more optional methods (bytes.Reader, bufio.Reader, net.Buffers ...): consumers that
+// probe for them must get the same stream through them.
+func (l *envReaderLen) ReadByte() (byte, error) {
+	var b [1]byte
+	for {
+		n, err := l.Read(b[:])
+		if n == 1 {
+			return b[0], nil
+		}
+		if err != nil {
+			return 0, err
+		}
+	}
+}
+
+func (l *envReaderLen) WriteTo(w io.Writer) (int64, error) {
+	var total int64
+	buf := make([]byte, 512)
+	for {
+		n, err := l.Read(buf)
+		if n > 0 {
+			m, werr := w.Write(buf[:n])
+			total += int64(m)
+			if werr != nil {
+				return total, werr
+			}
+		}
+		if err != nil {
+			if err == io.EOF {
+				return total, nil
+			}
+			return total, err
+		}
+	}
+}
+
 func (l *envReaderLen) Len() int {
 	if l.ErrReturned {
 		return 0
@@ -267,6 +303,40 @@ type EnvWriter struct {
 	Got    []byte   // concatenation of everything accepted
 	Chunks [][2]int // (offset into Got, len) per accepted call
 	Hook   func()
+	Rich   bool // the sink also has WriteString / ReadFrom
+}
+
+// Sink is what the code under test is given: the writer itself or, with Rich, a wrapper that also offers WriteString and
+// ReadFrom (as files, buffers and connections do), each with exactly the semantics of Write.
+func (w *EnvWriter) Sink() io.Writer {
+	if w.Rich {
+		return &envWriterRich{w}
+	}
+	return w
+}
+
+type envWriterRich struct{ *EnvWriter }
+
+func (r *envWriterRich) WriteString(s string) (int, error) { return r.Write([]byte(s)) }
+func (r *envWriterRich) ReadFrom(src io.Reader) (int64, error) {
+	var total int64
+	buf := make([]byte, 700)
+	for {
+		n, err := src.Read(buf)
+		if n > 0 {
+			m, werr := r.Write(buf[:n])
+			total += int64(m)
+			if werr != nil {
+				return total, werr
+			}
+		}
+		if err != nil {
+			if err == io.EOF {
+				return total, nil
+			}
+			return total, err
+		}
+	}
 }
 
 func (w *EnvWriter) Write(p []byte) (int, error) {
